@@ -133,3 +133,6 @@ Proof.
   intros Hk. unfold stops. rewrite run_beu. unfold slen; cbn [bytes lenN].
   destruct (N.leb_spec (N.of_nat k) 0); [lia | exact I].
 Qed.
+
+Lemma stops_bind_l A B (p : P A) (k : A -> P B) i : stops p i -> stops (Bind p k) i.
+Proof. unfold stops. rewrite run_bind. destruct (run p i); tauto. Qed.
